@@ -1,7 +1,8 @@
-(* C04 - parameter values survive print -> parse.  Proved: decimal integers; single-line string literals
-   (the form repr_string chooses for a string without line feed that is single-line exact).  The multi-line
-   forms, fixed-point numbers and position marks are decided on the real code (harness/checks/c04.py). *)
-From ES Require Import Base Text.Dec Text.Str Text.StrProofs Text.MStr Text.MStrProofs.
+(* C04 - parameter values survive print -> parse; literal spellings parse to their values.  Proved: integers (printed
+   form and every spelling of the token rule INTEGER), single-line and multi-line string literals, fixed-point values,
+   the arguments of position marks.  Constants, the printing contexts and the lexer rule for multi-line literals are
+   decided on the real code (harness/checks/c04.py). *)
+From ES Require Import Base Text.Dec Text.Str Text.StrProofs Text.MStr Text.MStrProofs Text.Num Text.NumProofs.
 
 Theorem C04_int_roundtrip : forall z, parse_Z (print_Z z) = Some z.
 Proof. exact parse_print_Z. Qed.
@@ -42,3 +43,46 @@ Proof. vm_compute. repeat split; reflexivity. Qed.
 Example C04_inexact_string :
   let s := [BS; LN] in single_exact s = false /\ read_single (print_single DQ s) <> s.
 Proof. vm_compute. split; [reflexivity | discriminate]. Qed.
+
+(* integers as the compiler reads them (token rule INTEGER, int(tok, 0)): the printed form str(z) and every other
+   spelling - base prefix in either case, leading zeros after it, digits in either case, a minus sign, the zeros of the
+   decimal rule - read as the integer they spell *)
+Theorem C04_integer_spellings : forall s z, spells s z -> read_int s = Some z.
+Proof. exact spellings_read. Qed.
+Print Assumptions C04_integer_spellings.
+
+Theorem C04_printed_integer_reads_back : forall z, read_int (spell_dec z) = Some z.
+Proof. exact read_int_spell_dec. Qed.
+Print Assumptions C04_printed_integer_reads_back.
+
+(* fixed-point parameters: whatever value the reader produces from a DECIMAL token is printed as a DECIMAL token that
+   reads as the same value *)
+Theorem C04_fixed_point_roundtrip : forall tok, is_decimal_token tok = true ->
+  exists v, read_fixed tok = Some v /\ is_decimal_token v = true /\ read_fixed v = Some v.
+Proof. exact fixed_roundtrip. Qed.
+Print Assumptions C04_fixed_point_roundtrip.
+
+(* position-mark arguments: tile number and half-tile offset survive for the offsets 0 and 2; what is read back for any
+   other offset is stated exactly (the recorded finding: offsets other than 0 and 2 have no literal form) *)
+Theorem C04_position_mark_argument_roundtrip : forall rel off, off = 0%N \/ off = 2%N ->
+  read_pos_arg (print_pos_arg rel off) = Some (rel, off).
+Proof. exact pos_arg_roundtrip. Qed.
+Print Assumptions C04_position_mark_argument_roundtrip.
+
+Theorem C04_position_mark_argument_read_back : forall rel off,
+  read_pos_arg (print_pos_arg rel off) = Some (rel, if (1 <? off)%N then 2%N else 0%N).
+Proof. exact read_print_pos_arg. Qed.
+
+Theorem C04_position_mark_other_offsets_refuted :
+  exists rel off, read_pos_arg (print_pos_arg rel off) <> Some (rel, off).
+Proof. exact pos_arg_other_offsets_refuted. Qed.
+
+Example C04_number_examples :
+  read_int (s2t "-0X00fF"%string) = Some (-255)%Z /\ spells (s2t "-0X00FF"%string) (-255)%Z /\
+  read_int (s2t "007"%string) = None /\
+  read_fixed (s2t "-007.50"%string) = Some (s2t "-7.50"%string) /\ read_fixed (s2t "-.5"%string) = Some (s2t "-0.5"%string) /\
+  print_pos_arg (-4) 2 = s2t "-4.5"%string /\ read_pos_arg (s2t "-4.5"%string) = Some ((-4)%Z, 2%N).
+Proof.
+  repeat split; try (vm_compute; reflexivity).
+  exact (sp_radix 16 true true true 2 255 (or_intror (or_intror eq_refl))).
+Qed.
